@@ -233,6 +233,30 @@ def cfg_items():
                 out.append("%s: %s => %s" % (path.split("/")[0] + "/" + path.split("/")[-1], t, nxt[:60]))
     return "\n".join(out) + "\n"
 
+PANIC_PAT = re.compile(r"\.unwrap\(\)|\.expect\(|\bpanic!|\bunreachable!|\bunimplemented!|\btodo!|\bassert(_eq|_ne)?!\(|"
+                       r"\b[a-z_][a-z0-9_]*(\.[a-z_][a-z0-9_]*)*\[[^\]\n;]+\]|\bas (u8|u16|u32|i16|i32|usize|f32)\b")
+def panic_sites():
+    """inventory of the constructs that can panic or silently wrap in the two library crates (outside tests and the
+    verification hooks): unwrap/expect, panic-family macros, assertions, slice indexing, narrowing casts; one line per
+    site, `file::function: normalised statement`. The model writes each of them out as a `Res.panic` branch or a guarded
+    narrowing; a new site is a broken tie of C01."""
+    out = []
+    for path in ["libadsb_deku/src/lib.rs", "libadsb_deku/src/adsb.rs", "libadsb_deku/src/bds.rs", "libadsb_deku/src/cpr.rs",
+                 "libadsb_deku/src/crc.rs", "libadsb_deku/src/mode_ac.rs", "rsadsb_common/src/lib.rs"]:
+        src = strip_comments(read(path))
+        src = re.split(r"#\[cfg\(test\)\]", src)[0]
+        src = re.split(r"#\[cfg\(rsadsb_adsb_deku_verif\)\]\s*pub mod verif_hooks", src)[0]
+        fn = "-"
+        for l in src.split("\n"):
+            t = l.strip()
+            m = re.search(r"\bfn ([a-zA-Z_0-9]+)", t)
+            if m: fn = m.group(1)
+            if t.startswith("#[") or t.startswith("#!["): continue
+            if path.endswith("crc.rs") and re.fullmatch(r"(0x[0-9a-f_]+,\s*)+", t): continue
+            if PANIC_PAT.search(t):
+                out.append("%s::%s: %s" % (path.split("/")[0] + "/" + path.split("/")[-1], fn, re.sub(r"\s+", " ", t)[:140]))
+    return "\n".join(out) + "\n"
+
 def main():
     os.makedirs(OUT, exist_ok=True)
     crc = crc_table(); chars = char_lookup(); tree = nl_tree(); c = constants()
@@ -273,6 +297,7 @@ end Adsb.Gen
     shapes = code_shapes()
     open(os.path.join(OUT, "layout.txt"), "w").write(lay)
     open(os.path.join(OUT, "cfg_items.txt"), "w").write(cfg_items())
+    open(os.path.join(OUT, "panic_sites.txt"), "w").write(panic_sites())
     open(os.path.join(OUT, "shapes.json"), "w").write(json.dumps(shapes, indent=1, sort_keys=True))
     print(json.dumps({"tables_sha": hashlib.sha256(lean.encode()).hexdigest()[:16],
                       "layout_sha": hashlib.sha256(lay.encode()).hexdigest()[:16],
